@@ -400,6 +400,49 @@ fn set_current(shard: usize, dump: Option<CaseDump>) {
     c[shard] = dump.map(|d| (Instant::now(), d));
 }
 
+static ABORT_CTX: std::sync::OnceLock<(&'static str, String, u64)> = std::sync::OnceLock::new();
+
+/// SIGABRT (double panic, stack overflow, abort() inside the tested code): the process is
+/// about to die without a replay file. Dump what every shard was executing as candidate
+/// replay files; `run` re-executes each in a child process to find the one that aborts.
+extern "C" fn on_abort(_sig: libc::c_int) {
+    let Some((engine, prop, seed)) = ABORT_CTX.get() else { return };
+    let Ok(c) = CURRENT.try_lock() else { return };
+    let dir = verif_root().join("replays");
+    let _ = std::fs::create_dir_all(&dir);
+    for (shard, cur) in c.iter().enumerate() {
+        let Some((_, dump)) = cur else { continue };
+        let case = dump();
+        let path = dir.join(format!("{}-abort-{}.json", prop, shard));
+        let rf = ReplayFile {
+            engine: engine.to_string(),
+            property: prop.clone(),
+            seed: *seed,
+            stage: format!("abort#{}", shard),
+            case,
+            violation: Some(Violation {
+                oracle: "process-aborted".into(),
+                step: 0,
+                detail: "the checker process was aborted (SIGABRT) while this case was running".into(),
+                trace: vec![],
+            }),
+        };
+        let _ = std::fs::write(&path, serde_json::to_string_pretty(&rf).unwrap_or_default());
+    }
+    // SA_RESETHAND: abort() re-raises with the default action after we return
+}
+
+fn install_abort_dump(engine: &'static str, prop: String, seed: u64) {
+    let _ = ABORT_CTX.set((engine, prop, seed));
+    unsafe {
+        let mut sa: libc::sigaction = std::mem::zeroed();
+        sa.sa_sigaction = on_abort as extern "C" fn(libc::c_int) as usize;
+        sa.sa_flags = libc::SA_RESETHAND;
+        libc::sigemptyset(&mut sa.sa_mask);
+        libc::sigaction(libc::SIGABRT, &sa, std::ptr::null_mut());
+    }
+}
+
 /// A pool operation that never returns while running inline cannot be interrupted. If no case
 /// finishes for `VERIF_HANG_S` seconds (default 120) the case that has been running longest is
 /// written out and re-executed in a child process. If it hangs there too and the property
@@ -494,6 +537,7 @@ fn start_hang_watchdog(engine: &'static str, prop: String, seed: u64, hang_is_vi
 fn check<E: Engine>(prop: &str, tier: Tier, seed: u64) -> i32 {
     let t0 = Instant::now();
     start_hang_watchdog(E::NAME, prop.to_string(), seed, E::hang_is_violation(prop));
+    install_abort_dump(E::NAME, prop.to_string(), seed);
     let known_entries = load_known(prop);
     let ctx = Ctx {
         prop: prop.to_string(),
